@@ -59,6 +59,7 @@ inductive Path where
   | refFaiData             -- … and its content (no file of its own: `refFai` is to `refFaiData` what a lock is to the data it
                            -- vouches for — an index that exists is read without any check of its completeness)
   | refFaiTmp              -- `<index>.<uuid4 hex>.tmp`: the name under which load_indexed_reference lets pyfaidx build the index
+  | paramsTmp              -- `.params.tmp`: the name under which save_params pickles the parameters before it renames the file
   deriving DecidableEq, Repr
 
 inductive Tok where
@@ -157,12 +158,13 @@ structure Variant where
   refRewrite : Bool          -- a plain-gzip reference is unpacked by *every* run, also by a resumed one (off: a resumed run
                              -- trusts whatever file carries the name of the unpacked copy)
   faiAtomic : Bool           -- the FASTA index is built under a temporary name and renamed (off: pyfaidx writes it in place)
+  paramsAtomic : Bool        -- `.params` is written as `.params.tmp` and renamed (off: rewritten in place, also by a resumed run)
   deriving DecidableEq, Repr
 
 /-- the repaired code (the current /repo) -/
-def fixed : Variant := ⟨true, true, true, true, true, true, true, true, true, true⟩
+def fixed : Variant := ⟨true, true, true, true, true, true, true, true, true, true, true⟩
 /-- the code as pinned -/
-def pinned : Variant := ⟨false, false, false, false, false, true, true, true, false, false⟩
+def pinned : Variant := ⟨false, false, false, false, false, true, true, true, false, false, false⟩
 
 inductive RG where
   | none      -- no --read_group
@@ -265,8 +267,17 @@ def forceClean (v : Variant) (cfg : Cfg) (resume : Bool) : Stage := fun fs =>
   if resume || !v.cleanBeforeParams then [] else rmAll (lockList cfg fs)
 
 /-- isoquant.py check_and_load_args: `--resume` unpickles `.params`; save_params rewrites it -/
-def paramsStage (resume : Bool) : Stage := fun _ =>
-  (if resume then [Act.load .params] else []) ++ evs [.create .params, .commit .params .good]
+def paramsEvs (v : Variant) : List Ev :=
+  if v.paramsAtomic then
+    -- save_params since ffd90d3: `with open(".params.tmp", "wb")` (create, complete at the close), then
+    -- `os.replace(".params.tmp", ".params")` = `remove paramsTmp`, `commit params good` (one atomic step: the state between
+    -- the two events — neither name — does not exist; superset).  A `.params.tmp` left by a killed run is never read:
+    -- the next run opens it with "wb" again.
+    [.create .paramsTmp, .commit .paramsTmp .good, .remove .paramsTmp, .commit .params .good]
+  else [.create .params, .commit .params .good]      -- rewritten in place (the close is left to the garbage collector)
+
+def paramsStage (v : Variant) (resume : Bool) : Stage := fun _ =>
+  (if resume then [Act.load .params] else []) ++ evs (paramsEvs v)
 
 /-- DatasetProcessor.__init__ (after `.params` was saved, before the first experiment): pyfaidx refuses a reference that is
     gzip- but not bgzip-compressed (`UnsupportedCompressionFormat`); it is unpacked into `<output>/<name>`
@@ -507,7 +518,7 @@ def unalOK (v : Variant) (cfg : Cfg) (sk : Bool) : Bool :=
 /-- `sk` = the stage lock exists and the run is resumed; with `--read_assignments` there is no collection at all,
     the number of unaligned reads is never counted (0 in every run) and nothing is cleaned up -/
 def stages (v : Variant) (cfg : Cfg) (ord : List Path) (resume sk : Bool) : List Stage :=
-  [paramsStage resume, refStage v cfg resume, rgStage cfg resume, collectPre cfg resume (sk || cfg.fromSaves)]
+  [paramsStage v resume, refStage v cfg resume, rgStage cfg resume, collectPre cfg resume (sk || cfg.fromSaves)]
   ++ cfg.chrs.map (collectChr v cfg resume (sk || cfg.fromSaves))
   ++ [collectPost cfg (sk || cfg.fromSaves), constructPre cfg]
   ++ cfg.chrs.map (constructChr v cfg resume)
@@ -581,7 +592,7 @@ def verdictTwice (v : Variant) (cfg : Cfg) (ord ord2 ord3 : List Path) (fs0 : FS
 
 /-- the paths a run of configuration `cfg` can touch (used to print file systems) -/
 def allPaths (cfg : Cfg) : List Path :=
-  [.params, .refFa, .refFai, .refFaiTmp, .rgLock, .info, .lock]
+  [.params, .paramsTmp, .refFa, .refFai, .refFaiTmp, .rgLock, .info, .lock]
   ++ cfg.chrs.flatMap (fun c =>
       [.rgSplit c, .save c, .groups c, .bamstat c, .collected c, .multimap c, .processed c] ++ chrOutputs cfg c)
   ++ finalPaths cfg
